@@ -234,15 +234,165 @@ def task_ctor():
     return rec.result()
 
 
+# ------------------------------------------------------------------ what the constructors hand to the third-party library
+class RecRule:
+    def __init__(self, rule_type=None, rule=None):
+        self.rule_type = rule_type
+        self.rule = rule
+
+
+class RecEncoder:
+    def __init__(self, conversion_rules=None):
+        self.conversion_rules = conversion_rules
+
+
+class RecSpec:
+    def __init__(self, name, simplify_repl=None):
+        self.name = name
+        self.simplify_repl = simplify_repl
+
+
+class RecDB:
+    def __init__(self):
+        self.cats = []
+
+    def add_context_category(self, name, prepend=False, macros=None):
+        self.cats.append((name, prepend, [(m.name, m.simplify_repl) for m in macros]))
+
+
+class RecDecoder:
+    def __init__(self, latex_context=None, keep_braced_groups=None, math_mode=None):
+        self.latex_context = latex_context
+        self.keep_braced_groups = keep_braced_groups
+        self.math_mode = math_mode
+
+
+class RecL2T:
+    @staticmethod
+    def get_default_latex_context_db():
+        return RecDB()
+
+
+class RecPkg:
+    latex2text = RecL2T
+
+
+OPT = [None, True, False]
+
+
+def describe_enc(mw):
+    out = []
+    for r in mw._encoder.conversion_rules:
+        if isinstance(r, str):
+            out.append(r)
+        else:
+            out.append((r.rule_type, [(p.pattern, repl) for p, repl in r.rule]))
+    return out
+
+
+def drv_ctor_seq(i1, j1, i2, j2):
+    """two default-built encoders and decoders in a row: what the second hands to the converter library must depend on
+    its own options only"""
+    a = LatexEncodingMiddleware(keep_math=OPT[i1], enclose_urls=OPT[j1])
+    b = LatexEncodingMiddleware(keep_math=OPT[i2], enclose_urls=OPT[j2])
+    da = LatexDecodingMiddleware(keep_braced_groups=OPT[i1], keep_math_mode=OPT[j1])
+    db = LatexDecodingMiddleware(keep_braced_groups=OPT[i2], keep_math_mode=OPT[j2])
+    dec = [(d._decoder.keep_braced_groups, d._decoder.math_mode, d._decoder.latex_context.cats) for d in (da, db)]
+    return describe_enc(a), describe_enc(b), dec, a._encoder is not b._encoder and da._decoder is not db._decoder
+
+
+def expect_enc(i, j, ref):
+    math, url = ref
+    out = []
+    if OPT[i] is not False:
+        out.append(math)
+    if OPT[j] is not False:
+        out.append(url)
+    out.append("defaults")
+    return out
+
+
+def expect_dec(i, j):
+    return (OPT[i] is True, "text" if OPT[j] is False else "verbatim", [("bibtexparse-default-context", True, [("url", "%s")])])
+
+
+def patched_ctor_env():
+    from bibtexparser.middlewares import latex_encoding as LE
+    saved = {k: getattr(LE, k) for k in ("UnicodeToLatexEncoder", "UnicodeToLatexConversionRule", "LatexNodes2Text", "MacroTextSpec", "pylatexenc")}
+    LE.UnicodeToLatexEncoder, LE.UnicodeToLatexConversionRule = RecEncoder, RecRule
+    LE.LatexNodes2Text, LE.MacroTextSpec, LE.pylatexenc = RecDecoder, RecSpec, RecPkg
+    return LE, saved
+
+
+def native_ctor_seq(i1, j1, i2, j2):
+    LE, saved = patched_ctor_env()
+    try:
+        ref = describe_enc(LatexEncodingMiddleware())
+        ea, eb, dec, fresh = drv_ctor_seq(i1, j1, i2, j2)
+    except Exception as ex:  # noqa
+        return {"input": [OPT[i1], OPT[j1], OPT[i2], OPT[j2]], "observed": f"raised {type(ex).__name__}: {ex}", "expected": "two middlewares"}
+    finally:
+        for k, v in saved.items():
+            setattr(LE, k, v)
+    ok = (len(ref) == 3 and ea == expect_enc(i1, j1, ref[:2]) and eb == expect_enc(i2, j2, ref[:2]) and fresh
+          and dec[0] == expect_dec(i1, j1) and dec[1] == expect_dec(i2, j2))
+    if ok:
+        return None
+    return {"input": [OPT[i1], OPT[j1], OPT[i2], OPT[j2]], "observed": {"first": ea, "second": eb, "decoders": dec},
+            "expected": "math rule iff keep_math is not False, URL rule iff enclose_urls is not False, then 'defaults'; decoder options passed through; no state shared between instances"}
+
+
+def task_ctor_seq():
+    eng = Engine()
+    eng.own_class(RecRule, RecEncoder, RecSpec, RecDB, RecDecoder, RecL2T, RecPkg)
+    rec = Recorder(eng)
+    LE, saved = patched_ctor_env()
+    try:
+        ws = eng.run(lambda: describe_enc(LatexEncodingMiddleware()), [])
+        ref = ws[0].result if len(ws) == 1 and ws[0].exc is None else None
+        idx = [eng.sym_int(n, 0, 2) for n in ("i1", "j1", "i2", "j2")]
+        worlds = eng.run(drv_ctor_seq, idx)
+    finally:
+        for k, v in saved.items():
+            setattr(LE, k, v)
+    if ref is None or len(ref) != 3:
+        rec.require(ws[0] if ws else None, True, "default-encoder-rules", lambda m: native_ctor_seq(0, 0, 0, 0) or {"input": "LatexEncodingMiddleware()", "observed": str(ref), "expected": "math rule, URL rule, 'defaults'"})
+        return rec.result()
+    for W in worlds:
+        def rp(m):
+            return native_ctor_seq(*[eng.model_value(m, x) for x in idx])
+        if W.exc is not None:
+            rec.require(W, True, "constructor-no-exception", rp)
+            continue
+        ea, eb, dec, fresh = W.result
+        bad = False
+        for vals in itertools.product(range(3), repeat=4):
+            here = b_all([i_cmp("==", x, v) for x, v in zip(idx, vals)])
+            sat, _ = eng.query(W, here)
+            if not sat:
+                continue
+            i1, j1, i2, j2 = vals
+            good = (ea == expect_enc(i1, j1, ref[:2]) and eb == expect_enc(i2, j2, ref[:2]) and fresh is True
+                    and dec[0] == expect_dec(i1, j1) and dec[1] == expect_dec(i2, j2))
+            if not good:
+                bad = b_or(bad, here)
+        rec.require(W, bad, "constructor-options-honoured-independently", rp)
+        rec.witness("two-constructions", W)
+    return rec.result(worlds=len(worlds))
+
+
 def main():
     chk = Check("C18", __doc__)
     chk.bounds = {"library": "String, Preamble, Entry, ExplicitComment, ParsingFailedBlock; every text one symbolic character; three entry shapes: main = (str, int, NameParts(first 1 word, last 2 words), str, list of ints, list of str); names-only = a single NameParts field with 5 strings over all four parts; dup-keys = note/title/note/year(int)/title with repeated field keys",
                   "converter": "a function of its input: raises on values starting with 'y', else returns '<'+input+'>' (values are symbolic over {x,y}, so all 2^6 failure patterns and all equal-value patterns occur)",
+                  "constructor sequences": "two default-built encoder and decoder middlewares in a row, keep_math / enclose_urls / keep_braced_groups / keep_math_mode each symbolic over {None, True, False}; the pylatexenc classes are recording stubs, the claim is about what bibtexparser hands to them (which rules, which options, no shared state)",
                   "options": "encoder / decoder middleware x allow_inplace_modification in {True, False}; custom converter vs. option conflicts in the constructors"}
     chk.assumptions = ["the pylatexenc conversion itself is a stub: what it returns is arbitrary, so the round-trip clause decode(encode(t)) == t is NOT claimed (not encodable within reach: third-party, table/regex driven)",
                        "default-constructed middlewares (which build pylatexenc objects) are not interpreted; only the custom-converter path of the constructors is"]
-    chk.stubs = ["pylatexenc UnicodeToLatexEncoder.unicode_to_latex / LatexNodes2Text.latex_to_text -> nondeterministic stub"]
-    chk.expected_vacuity = ["converter-failed", "all-converted"]
+    chk.stubs = ["pylatexenc UnicodeToLatexEncoder.unicode_to_latex / LatexNodes2Text.latex_to_text -> nondeterministic stub",
+                 "constructor task: UnicodeToLatexEncoder / UnicodeToLatexConversionRule / LatexNodes2Text / MacroTextSpec / get_default_latex_context_db -> recording classes"]
+    chk.expected_vacuity = ["converter-failed", "all-converted", "two-constructions"]
+    chk.add_task("ctor-sequence", task_ctor_seq)
     for kind, inplace, shape in itertools.product(("enc", "dec"), (True, False), sorted(SHAPES)):
         chk.add_task(f"{kind}-inplace{int(inplace)}-{shape}", task, kind=kind, inplace=inplace, shape=shape)
     chk.add_task("constructors", task_ctor)
